@@ -24,7 +24,8 @@ import (
 // observations to be byte-identical in all of these runs.  The data-race half of the
 // property is decided by a separate binary built with -race (harness/racejob, see
 // c09race.go).  Stream "spellings" (c09_spell.go) adds job sets over paths that are spellings
-// of one another and re-runs their jobs in fresh processes.
+// of one another and re-runs their jobs in fresh processes.  Stream "concurrent-save"
+// (c09_save.go): independent Files saved by goroutines at the same time.
 type c09 struct{}
 
 func init() { Register(c09{}) }
@@ -668,6 +669,8 @@ func (c09) Generate(r *rand.Rand, t string) []*Case {
 		}
 		out = append(out, c)
 	}
+	// stream concurrent-save (c09_save.go); drawn last
+	out = append(out, c09SaveCases(r, t)...)
 	return out
 }
 
@@ -698,6 +701,8 @@ func (c09) Oracle(c *Case, got []hist.Obs) string {
 		return c09SharedMapOracle(c, got)
 	case "spellings":
 		return c09SpellOracle(c, got)
+	case "concurrent-save":
+		return c09SaveOracle(c, got)
 	}
 	return c09JobsOracle(c, got)
 }
@@ -1076,6 +1081,9 @@ func c09SharedMapOracle(c *Case, got []hist.Obs) string {
 func (c09) Shrink(c *Case) []*Case {
 	if c.Stream == "race" {
 		return nil
+	}
+	if c.Stream == "concurrent-save" {
+		return c09SaveShrink(c)
 	}
 	var out []*Case
 	mk := func(h hist.History) {
